@@ -25,7 +25,7 @@ import importlib
 import json
 import warnings
 
-from harness.common import Run, coq_list, parse_coq_string
+from harness.common import COQ, Run, coq_list, parse_coq_string, sh
 
 CONE = ["Subgraph.v", "SubgraphFacts.v"]
 PROPS = "props/C19.v"
@@ -1034,7 +1034,7 @@ def run_nested(impl: Impl, tree, mod_name, builds):
         counts[cid] += 1
         got = [impl.desc_of(a.type) for a in args]
         if spec is not None and not args_match(spec, got):
-            bad.append(("C19/nested/%s/arg-types" % kind, "a nested callback received argument types that differ from the ONNX prescription",
+            bad.append(("C19/scan/state-scan-split" if kind == "scan" else "C19/nested/%s/arg-types" % kind, "a nested callback received argument types that differ from the ONNX prescription",
                         {"prescribed": [str(t) for t in spec], "received": [impl.show_t(g) for g in got]}))
 
     def chain(trees, x):
@@ -1229,8 +1229,19 @@ def describe(case):
 
 
 def run(run: Run) -> int:
-    run.check_theorems(PROPS, CONE, thorough_coqchk=(run.tier == "thorough"))
+    ok = run.check_theorems(PROPS, CONE, thorough_coqchk=False)
     quick = run.tier == "quick"
+    if ok and not quick:
+        # common.check_theorems' own coqchk step asks for library Scratch.C19 but compiles the scratch copy as bare C19
+        # (reported to the lead); check the .vo of the locked build instead
+        import time as _time
+
+        t0 = _time.time()
+        rc, out = sh(f"timeout 900 coqchk -silent -o -R {COQ} Spox Spox.props.C19", cwd=str(COQ), timeout=930)
+        run.cov["coqchk"] = {"rc": rc, "tail": out[-600:], "wall_s": round(_time.time() - t0, 1)}
+        if rc != 0:
+            run.discharged = 0
+            run.fail("proof", "coqchk", "coqchk rejected the compiled property file", out[-2000:])
     rng = run.rng
     impl = Impl()
     cases = corpus()
